@@ -43,6 +43,7 @@ if [ -f "$W/trace.txt" ]; then
   verdict=$(paste <(grep -E '^[ZLT] ' "$W/trace.txt") <(grep -E '^[ZLT] ' "$W/checkptr.trace") | awk -F'\t' '
     { i1 = index($1, " | "); i2 = index($2, " | ");
       in1 = substr($1, 1, i1 - 1); in2 = substr($2, 1, i2 - 1);
+      if ($2 == "") exit   # the guarded trace goes on (round 4: the text streams run in the guarded layout only)
       if (in1 != in2) { print "INCOMPARABLE"; exit }
       if ($1 != $2) { gsub(/ /, "_", in1); print "DIFF " in1; exit } }')
   case "$verdict" in
